@@ -148,6 +148,47 @@ def find_peaks_model(x, height=None, **kw):
     return np.array(mids, dtype=int), {}
 
 
+def argrel_model(comparator_name):
+    """Transcription of scipy.signal.argrelextrema (argrelmax / argrelmin): strict comparison with the `order` neighbours on
+    each side along `axis`, mode 'clip' (an edge sample is compared with itself and can never be an extremum) or 'wrap'."""
+    def argrel(data, axis=0, order=1, mode="clip"):
+        x = np.asarray(data)
+        if x.dtype != object:
+            import scipy.signal
+            return getattr(scipy.signal, comparator_name)(x, axis=axis, order=order, mode=mode)
+        if int(order) < 1:
+            raise ValueError("Order must be an int >= 1")
+        x2 = np.moveaxis(x, axis, -1)
+        n = x2.shape[-1]
+        hits = []
+        for idx in np.ndindex(*x2.shape[:-1]):
+            row = x2[idx]
+            for i in range(n):
+                ok = True
+                for sh in range(1, int(order) + 1):
+                    for j in (i - sh, i + sh):
+                        jj = j % n if mode == "wrap" else min(max(j, 0), n - 1)
+                        ok = ok and bool(row[i] > row[jj] if comparator_name == "argrelmax" else row[i] < row[jj])
+                        if not ok:
+                            break
+                    if not ok:
+                        break
+                if ok:
+                    hits.append(idx + (i,))
+        if not hits:
+            return tuple(np.array([], dtype=int) for _ in range(x.ndim))
+        arr = np.array(hits, dtype=int)
+        # columns back in the original axis order
+        cols = list(range(x.ndim))
+        order_axes = [a for a in range(x.ndim) if a != (axis % x.ndim)] + [axis % x.ndim]
+        out = [None] * x.ndim
+        for pos, a in enumerate(order_axes):
+            out[a] = arr[:, pos]
+        key = np.lexsort(tuple(out[a] for a in reversed(range(x.ndim))))
+        return tuple(out[a][key] for a in range(x.ndim))
+    return argrel
+
+
 # ----------------------------------------------------------------------------- detrend / filter
 def sym_detrend(data, axis=-1, type="linear", bp=0, overwrite_data=False):
     """Closed-form least squares removal (constant / linear) - same projector scipy computes."""
@@ -225,6 +266,8 @@ def make_signal_modules(find_peaks=find_peaks_model, tukey=sym_tukey, detrend=sy
     ss.detrend = detrend
     ss.butter = butter
     ss.sosfiltfilt = sosfiltfilt
+    ss.argrelmax = argrel_model("argrelmax")
+    ss.argrelmin = argrel_model("argrelmin")
     ss.filtfilt = lambda b, a, x, *k, **kw: sosfiltfilt(OpaqueFilter(*[eval(v) if i in (1, 3) else v for i, v in enumerate(b.cfg)], form="ba-filtfilt") if isinstance(b, OpaqueFilter) else b, x)
     ss.sosfilt = lambda sos, x, *k, **kw: sosfiltfilt(OpaqueFilter(*[eval(v) if i in (1, 3) else v for i, v in enumerate(sos.cfg)], form="one-pass"), x)
     ss.lfilter = lambda b, a, x, *k, **kw: sosfiltfilt(OpaqueFilter(*[eval(v) if i in (1, 3) else v for i, v in enumerate(b.cfg)], form="one-pass-ba"), x)
